@@ -5,6 +5,10 @@ import json, os, subprocess, time, hashlib, glob, concurrent.futures
 import genpipe, idlmini
 
 VERIF = os.path.dirname(os.path.abspath(__file__))
+# evidence and replays of an evaluation run against a scratch tree (VERIF_REPO set) go to a scratch place
+_ALT = os.environ.get("VERIF_REPO", "/repo") != "/repo"
+EVIDENCE = os.path.join(os.environ.get("VERIF_ALT_OUT", "/tmp/verif_alt"), "evidence") if _ALT else os.path.join(VERIF, "evidence")
+REPLAYS = os.path.join(os.environ.get("VERIF_ALT_OUT", "/tmp/verif_alt"), "replays") if _ALT else os.path.join(VERIF, "replays")
 
 
 def typecheck(mod, pkg):
@@ -25,10 +29,9 @@ def materialise(prop, spec, scratch):
     for f in glob.glob(os.path.join(VERIF, "catalogue", "c02_*.frugal")):
         open(os.path.join(cat, os.path.basename(f)), "w").write(open(f).read())
     for g in spec["gen_groups"]:
-        for prog in [g["program"]] + g.get("includes", []):
-            rc, msg = genpipe.run_frugal(exe, os.path.join(cat, prog + ".frugal"), "go:package_prefix=verifgen/", mod)
-            if rc != 0:
-                inconclusive.append("compiler failed on %s: %s" % (prog, msg[-400:]))
+        rc, msg = genpipe.run_frugal(exe, os.path.join(cat, g["program"] + ".frugal"), "go:package_prefix=verifgen/", mod, recursive=bool(g.get("includes")))
+        if rc != 0:
+            inconclusive.append("compiler failed on %s: %s" % (g["program"], msg[-400:]))
         complaint = typecheck(mod, g["pkg"])
         if complaint:
             tc_violations.append({"property": prop, "harness": "go build", "kind": "typecheck", "label": "generated Go does not type-check", "site": g["program"],
@@ -110,14 +113,14 @@ def run(prop, spec, tier, scratch, known, vcheck):
             else:
                 validated += 1
     exit_code, new = 0, 0
-    os.makedirs(os.path.join(VERIF, "replays"), exist_ok=True)
+    os.makedirs(REPLAYS, exist_ok=True)
     seen = set()
     for v in tc_violations:
         k = vcheck.match_known(known, prop, v["fingerprint"])
         if k:
             lines.append("KNOWN-FINDING: property=%s %s" % (prop, k["what"]))
             continue
-        path = os.path.join(VERIF, "replays", "%s-%s.json" % (prop, hashlib.sha1(v["fingerprint"].encode()).hexdigest()[:10]))
+        path = os.path.join(REPLAYS, "%s-%s.json" % (prop, hashlib.sha1(v["fingerprint"].encode()).hexdigest()[:10]))
         v["confirmed_by"] = "go build of the generated package fails"
         json.dump(v, open(path, "w"), indent=1)
         lines.append("VIOLATION property=%s replay=%s" % (prop, path))
@@ -137,7 +140,7 @@ def run(prop, spec, tier, scratch, known, vcheck):
         if not ok:
             inconclusive.append("ENGINE-MISMATCH: counterexample %s did not reproduce: %s" % (fp, how))
             continue
-        path = os.path.join(VERIF, "replays", "%s-%s.json" % (prop, hashlib.sha1(fp.encode()).hexdigest()[:10]))
+        path = os.path.join(REPLAYS, "%s-%s.json" % (prop, hashlib.sha1(fp.encode()).hexdigest()[:10]))
         v["confirmed_by"] = how
         v["program"] = job["prog"]
         json.dump(v, open(path, "w"), indent=1)
